@@ -51,6 +51,10 @@ def _emit_fn(gen, root, fn, canary_false=False):
     fired = []
     r18 = 'R18' in getattr(fn, 'rules', ())
     sig = X.rewrite_sig(X.r18_sig(d['sig'], fired) if r18 else d['sig'], fired, fn.ret_name)
+    rules_ = getattr(fn, 'rules', ())
+    gtok = getattr(fn, 'ghost_token', None) if 'R23' in rules_ else None      # dict(param=, arg=, callees=[..]); see extract.r23_*
+    if gtok:
+        sig = X.r23_ghost_token_sig(sig, fired, gtok['param'])
     for (a, b) in fn.sig_subst:
         if a not in sig:
             if fn.lenient_sig:
@@ -69,6 +73,12 @@ def _emit_fn(gen, root, fn, canary_false=False):
         body = X.rewrite_body(body_orig, fired)
         if r18:
             body = X.r18_await(body, fired)
+        if 'R21' in rules_:
+            body = X.r21_for_ref_iter(body, fired)
+        if 'R22' in rules_:
+            body = X.r22_iter_position(body, fired)
+        if gtok and gtok.get('callees'):
+            body = X.r23_ghost_token_calls(body, fired, gtok['callees'], gtok['arg'])
         for (a, b) in fn.body_subst:
             if body.count(a) != 1:
                 raise X.ExtractError('ANCHOR-LOST body_subst in %s::%s: %r (%d)' % (fn.file, fn.name, a, body.count(a)))
